@@ -11,7 +11,7 @@ from ..flow import Flow, name_pred
 from ..index import AnalysisError, Module, dotted
 from .. import astq
 from . import _c19_prop as P
-from . import _symenv as S
+from . import _c19_symenv as S
 
 ORCH = "sktime/benchmarking/orchestration.py"
 RESULTS = "sktime/benchmarking/results.py"
@@ -665,8 +665,9 @@ def analyse_iter(ctx, repo):
               and [ident.get(a.attr) for a in zip_src.args] == ["tasks", "datasets"]
               and astq.is_self_attr(e_mid) and ident.get(e_mid.attr) == "strategies"
               and astq.canon(e_in) == astq.canon(enum_src))
-        if not ok and any(S.is_opaque(x) for x in (e_out, e_mid, e_in)):
-            ok = None
+        known = all(a.attr in ident for a in zip_src.args) and (not astq.is_self_attr(e_mid) or e_mid.attr in ident)
+        if not ok and (not known or any(S.is_opaque(x) for x in (e_out, e_mid, e_in))):
+            ok = None  # e.g. the constructor copies / validates the lists: provenance of the attribute not established
     ctx.check(ok, "R4", c, "loops = zip(tasks, datasets) x strategies x enumerate(cv.split(...)), all unfiltered",
               "the loop nest is not the full product zip(self.tasks, self.datasets) x self.strategies x enumerate(folds)", loc)
     # folds over the loaded data of the same dataset ---------------------------------------------
@@ -855,6 +856,15 @@ def analyse_fit_predict(ctx, repo, flow, roles):
             h = repo.lookup_method(k, m)
             if h is not None and m != "_append_key" and flow.must_call(h[1], base_pred, h[0].module, k, h[0]):
                 reg = True
+        if m == "_append_key":
+            b = astq.bind_call(repo.func(BASE, "BaseResults._append_key"), call, skip_self=True) or {}
+            for pname, want in (("strategy_name", "R_strategy.name"), ("dataset_name", "R_dataset.name")):
+                got = astq.canon(cons.sub(b[pname], call)) if isinstance(b.get(pname), ast.AST) else None
+                if got != want:
+                    reg = False
+                ctx.check(None if got is None else got == want, "R5", "%s:_append_key:%s" % (tag, pname),
+                          "registers the %s of this iteration" % pname,
+                          "_append_key receives %s as %s" % ((got or "nothing").replace("R_", ""), pname), ctx.loc(mod, call))
         if reg:
             registers.append((call, node))
     for c in astq.calls(fn):
@@ -979,3 +989,419 @@ def analyse_fit_predict(ctx, repo, flow, roles):
     report("R5", tag + ":registry:work-path", work_bad, "folds that are fitted register (strategy, dataset)",
            "a fold is fitted but no executed call registers (strategy, dataset)", loc)
     return cons
+
+
+# ------------------------------------------------------------------------------------------------ R4 (consumer side)
+def _eq(e, text):
+    return astq.canon(e) == text
+
+
+def check_slice_of(ctx, construct, expr, want_idx, what, loc):
+    """expr must be R_data.iloc[<want_idx>]"""
+    m = {}
+    if S.unify(S.pattern("R_data.iloc[H_I]"), expr, m):
+        got = astq.canon(m["H_I"])
+        if got == want_idx:
+            ctx.ok("R4", construct, "%s = data.iloc[%s]" % (what, want_idx[2:]), loc)
+        elif got in ("R_train_idx", "R_test_idx"):
+            ctx.violation("R4", construct, "%s uses the rows of %s, expected %s" % (what, got[2:], want_idx[2:]), loc)
+        else:
+            ctx.undecided("R4", construct, "%s = data.iloc[%s]" % (what, got), loc)
+        return
+    if _eq(expr, "R_data"):
+        ctx.violation("R4", construct, "%s is the whole data set, not the fold's %s rows" % (what, want_idx[2:]), loc)
+    else:
+        ctx.undecided("R4", construct, "%s has an unrecognised source: %s" % (what, astq.canon(expr)[:100]), loc)
+
+
+def consumer_R4(ctx, repo, cons):
+    fn, g, mod = cons.fn, cons.cfg, cons.mod
+    tag = "Orchestrator." + cons.name
+    if cons.loop is None:
+        ctx.undecided("R4", tag + ":loop", "no loop over self._iter()", ctx.loc(mod, fn))
+        return
+    tgt = cons.loop.target
+    n_roles = len(cons.roles)
+    ok = isinstance(tgt, ast.Tuple) and len(tgt.elts) == n_roles and all(isinstance(e, ast.Name) for e in tgt.elts)
+    ctx.check(ok, "R4", tag + ":unpack", "unpacks the %d components yielded by _iter()" % n_roles,
+              "loop target does not unpack the %d-tuple yielded by _iter()" % n_roles, ctx.loc(mod, cons.loop))
+    if not ok:
+        return
+    strat = repo.cls(STRAT + ":BaseSupervisedLearningStrategy")
+    header = g.node_of(cons.loop.iter)
+    in_body, _ = simulate(g, [s for s, lab in header.succ if lab is True], {header.id}, lambda n: None)
+    fit_nodes = set()
+    for c in astq.calls(fn):
+        if not isinstance(c.func, ast.Attribute) or c.func.attr not in ("fit", "predict"):
+            continue
+        node = g.node_of(c)
+        if node is None or node.id not in in_body:
+            continue
+        recv = cons.sub(c.func.value, c)
+        if not _eq(recv, "R_strategy"):
+            if any(isinstance(n, ast.Name) and n.id.startswith("R_") for n in ast.walk(recv)) and c.func.attr == "fit":
+                ctx.violation("R4", tag + ":fit:receiver", "fit is called on %s, not on the fold's clone" % astq.canon(recv), ctx.loc(mod, c))
+            continue
+        h = repo.lookup_method(strat, c.func.attr)
+        if h is None:
+            continue
+        b = astq.bind_call(h[1], c, skip_self=True)
+        loc = ctx.loc(mod, c)
+        if b is None or "!unknown" in b:
+            ctx.violation("R4", "%s:%s:signature" % (tag, c.func.attr), "call does not match %s.%s" % (h[0].name, c.func.attr), loc)
+            continue
+        if c.func.attr == "fit":
+            fit_nodes.add(node.id)
+            t = cons.sub(b["task"], c) if "task" in b else None
+            ctx.check(None if t is None else _eq(t, "R_task"), "R4", tag + ":fit:task", "fitted for the task of this dataset",
+                      "fit receives %s as task" % (astq.canon(t) if t is not None else "nothing"), loc)
+            if "data" in b:
+                check_slice_of(ctx, tag + ":fit:data", cons.sub(b["data"], c), "R_train_idx", "training data of fit", loc)
+    # stored records
+    for call, m in cons.results_calls():
+        node = g.node_of(call)
+        if node is None or node.id not in in_body or m not in ("save_predictions", "save_fitted_strategy"):
+            continue
+        h = repo.lookup_method(cons.hdd, m)
+        b = astq.bind_call(h[1], call, skip_self=True) if h else None
+        if b is None or any(k in b for k in ("*", "**", "!unknown")):
+            continue  # reported by the arity rule
+        loc = ctx.loc(mod, call)
+        a = {k: cons.sub(v, call) for k, v in b.items() if isinstance(v, ast.AST)}
+        if m == "save_fitted_strategy":
+            c0 = tag + ":save_fitted"
+            if "strategy" in a:
+                ctx.check(_eq(a["strategy"], "R_strategy") if not S.is_opaque(a["strategy"]) else None, "R4", c0 + ":strategy",
+                          "the fitted clone of this fold is saved", "saves %s, not the strategy fitted in this fold" % astq.canon(a["strategy"])[:80], loc)
+        else:
+            part = astq.const_value(a.get("train_or_test"))
+            if part not in ("train", "test"):
+                ctx.undecided("R4", tag + ":save_predictions:part", "train_or_test is not a constant", loc)
+                continue
+            c0 = "%s:save_predictions[%s]" % (tag, part)
+            idx = "R_%s_idx" % part
+            if "index" in a:
+                e = strip_wrappers(a["index"])
+                got = astq.canon(e)
+                if got == idx:
+                    ctx.ok("R4", c0 + ":index", "index = %s" % idx[2:], loc)
+                elif got in ("R_train_idx", "R_test_idx"):
+                    ctx.violation("R4", c0 + ":index", "the %s record stores the instance index of the %s rows" % (part, got[2:-4]), loc)
+                else:
+                    ctx.undecided("R4", c0 + ":index", "index = %s" % got[:80], loc)
+            X = None
+            if "y_pred" in a:
+                mm = {}
+                if S.unify(S.pattern("H_S.predict(H_X)"), a["y_pred"], mm) or S.unify(S.pattern("H_S.predict(data=H_X)"), a["y_pred"], mm):
+                    if _eq(mm["H_S"], "R_strategy"):
+                        X = mm["H_X"]
+                        check_slice_of(ctx, c0 + ":y_pred", X, idx, "predicted rows", loc)
+                    else:
+                        ctx.undecided("R4", c0 + ":y_pred", "predictions of %s" % astq.canon(mm["H_S"])[:60], loc)
+                else:
+                    ctx.undecided("R4", c0 + ":y_pred", "y_pred = %s" % astq.canon(a["y_pred"])[:100], loc)
+            if "y_true" in a:
+                mm = {}
+                yt = a["y_true"]
+                if S.unify(S.pattern("H_X.loc[H_ROWS, R_task.target]"), yt, mm) or S.unify(S.pattern("H_X[R_task.target]"), yt, mm):
+                    rows = mm.get("H_ROWS")
+                    full = rows is None or (isinstance(rows, ast.Slice) and rows.lower is None and rows.upper is None and rows.step is None)
+                    if not full:
+                        ctx.undecided("R4", c0 + ":y_true", "row selection %s" % astq.canon(rows), loc)
+                    elif X is not None and astq.canon(mm["H_X"]) == astq.canon(X):
+                        ctx.ok("R4", c0 + ":y_true", "true values = target column of the very rows that were predicted", loc)
+                    else:
+                        check_slice_of(ctx, c0 + ":y_true", mm["H_X"], idx, "true values", loc)
+                else:
+                    ctx.undecided("R4", c0 + ":y_true", "y_true = %s" % astq.canon(yt)[:100], loc)
+        for pname, want, txt in (("cv_fold", "R_fold", "fold number"), ("dataset_name", "R_dataset.name", "dataset name"),
+                                 ("strategy_name", "R_strategy.name", "strategy name")):
+            if pname in a:
+                got = astq.canon(a[pname])
+                cc = "%s:%s:%s" % (tag, m if m == "save_fitted_strategy" else "save_predictions[%s]" % astq.const_value(a.get("train_or_test")), pname)
+                roots = {n.id for n in ast.walk(a[pname]) if isinstance(n, ast.Name) and n.id.startswith("R_")}
+                if got == want:
+                    ctx.ok("R4", cc, "%s of this iteration" % txt, loc)
+                elif S.is_opaque(a[pname]) or not roots or roots == {want.split(".")[0]}:
+                    ctx.undecided("R4", cc, "%s = %s" % (pname, got[:80]), loc)
+                else:
+                    ctx.violation("R4", cc, "%s is taken from %s, expected %s (the %s component yielded by _iter)"
+                                  % (pname, got.replace("R_", ""), want.replace("R_", ""), want.split(".")[0][2:]), loc)
+    # fit precedes predict / stores in every iteration
+    if fit_nodes:
+        IN, _ = g.forward_must(lambda n: n.id in fit_nodes, kill=lambda n: n is header)
+        nseen = {}
+        for c in astq.calls(fn):
+            node = g.node_of(c)
+            if node is None or node.id not in in_body or not isinstance(c.func, ast.Attribute):
+                continue
+            is_pred = c.func.attr == "predict" and _eq(cons.sub(c.func.value, c), "R_strategy")
+            is_savefit = c.func.attr == "save_fitted_strategy"
+            if is_pred or is_savefit:
+                nseen[c.func.attr] = nseen.get(c.func.attr, 0) + 1
+                ctx.check(IN[node.id], "R4", "%s:%s%s:after-fit" % (tag, c.func.attr, "" if nseen[c.func.attr] == 1 else "#%d" % nseen[c.func.attr]),
+                          "executed only after strategy.fit in the same iteration",
+                          "%s can be reached without strategy.fit having run in this iteration" % c.func.attr, ctx.loc(mod, c))
+
+
+def rule_arity(ctx, repo, roles):
+    cls = repo.cls(ORCH + ":Orchestrator")
+    classes = [repo.cls(RESULTS + ":HDDResults"), repo.cls(RESULTS + ":RAMResults")]
+    for mname, fn in sorted(cls.methods.items()):
+        cons_calls = []
+        for c in astq.calls(fn):
+            if isinstance(c.func, ast.Attribute):
+                try:
+                    recv = S.resolve_at(fn, c.func.value, c)
+                except ValueError:
+                    continue
+                if astq.is_self_attr(recv, attr="results"):
+                    cons_calls.append(c)
+        seen = {}
+        for c in cons_calls:
+            m = c.func.attr
+            k = seen[m] = seen.get(m, 0) + 1
+            construct = "Orchestrator.%s:call:%s%s" % (mname, m, "" if k == 1 else "#%d" % k)
+            probs = []
+            for rc in classes:
+                h = repo.lookup_method(rc, m)
+                if h is None:
+                    probs.append("%s has no method %s" % (rc.name, m))
+                    continue
+                dcls, mfn = h
+                b = astq.bind_call(mfn, c, skip_self=True)
+                if b is None:
+                    probs.append("%s.%s: too many positional arguments or an argument given twice" % (dcls.name, m))
+                    continue
+                if "*" in b or "**" in b:
+                    probs.append(None)
+                    continue
+                if "!unknown" in b:
+                    probs.append("%s.%s has no parameter %s" % (dcls.name, m, ", ".join(b["!unknown"])))
+                req = [p for p in astq.all_param_names(mfn, skip_self=True) if p not in astq.param_defaults(mfn)]
+                missing = [p for p in req if p not in b]
+                if missing:
+                    probs.append("%s.%s(%s) is called without %s" % (dcls.name, m, ", ".join(astq.param_names(mfn, skip_self=True)),
+                                                                  ", ".join(missing)))
+            real = [p for p in probs if p]
+            if None in probs and not real:
+                ctx.undecided("R4", construct, "star arguments", ctx.loc(cls.module, c))
+            else:
+                ctx.check(not real, "R4", construct, "matches the signatures of HDDResults and RAMResults",
+                          "definite TypeError: " + "; ".join(real), ctx.loc(cls.module, c))
+
+
+# ------------------------------------------------------------------------------------------------ R5 (rest)
+def rule_R5_rest(ctx, repo, flow, cons, reg_pos):
+    fn, g, mod = cons.fn, cons.cfg, cons.mod
+    tag = "Orchestrator.fit_predict"
+    # master file written after the loop on every normal path
+    save_nodes = set()
+    for call, m in cons.results_calls():
+        if m == "save":
+            n = g.node_of(call)
+            if n is not None:
+                save_nodes.add(n.id)
+    if cons.loop is not None:
+        header = g.node_of(cons.loop.iter)
+        in_body, _ = simulate(g, [s for s, lab in header.succ if lab is True], {header.id}, lambda n: None)
+        after = {i for i in save_nodes if i not in in_body}
+        ctx.check(g.must_pass(lambda n: n.id in after), "R5", tag + ":save-after-loop",
+                  "results.save() is executed after the loop on every normal path",
+                  "some normal path leaves fit_predict without results.save() after the loop: the registry is never persisted",
+                  ctx.loc(mod, fn))
+    # the save_* methods register (strategy, dataset) on every path, with the right roles
+    pred = name_pred("_append_key")
+    ak = repo.func(BASE, "BaseResults._append_key")
+    for cname in ("HDDResults", "RAMResults"):
+        k = repo.cls(RESULTS + ":" + cname)
+        for m in ("save_predictions", "save_fitted_strategy"):
+            h = repo.lookup_method(k, m)
+            if h is None:
+                continue
+            dcls, mfn = h
+            calls = [c for c in astq.calls(mfn) if self_call(c, "_append_key")]
+            if not calls and cname == "RAMResults" and CFG(mfn).exit.id not in CFG(mfn).reachable():
+                continue  # not implemented for the in-memory store (always raises)
+            c0 = "%s.%s:_append_key" % (cname, m)
+            ctx.check(flow.must_call(mfn, pred, dcls.module, k, dcls), "R5", c0, "registers on every path",
+                      "some path through %s does not call _append_key: the record is stored but never listed" % m, ctx.loc(dcls.module, mfn))
+            for c in calls:
+                b = astq.bind_call(ak, c, skip_self=True)
+                if b is None:
+                    ctx.violation("R5", c0 + ":args", "_append_key call does not match its signature", ctx.loc(dcls.module, c))
+                    continue
+                env = S.env_at(mfn, c)
+                for pname, v in b.items():
+                    role = ROLE_OF_PARAM.get(pname)
+                    if role is None or not isinstance(v, ast.AST):
+                        continue
+                    src = classify_source(S.subst(v, env), mfn, reg_pos)
+                    ctx.check((src[1] == role) if src[0] == "role" else None, "R5", "%s:%s" % (c0, role),
+                              "%s registered from %s" % (ROLE_TEXT[role], src[-1]),
+                              "the %s list receives the %s" % (ROLE_TEXT[role], ROLE_TEXT.get(src[1], src[-1]) if src[0] == "role" else src[-1]),
+                              ctx.loc(dcls.module, c))
+    # _append_key really appends
+    for attr, p in (("strategy_names", "strategy_name"), ("dataset_names", "dataset_name")):
+        app = [c for c in astq.calls(ak) if isinstance(c.func, ast.Attribute) and c.func.attr in ("append", "add")
+               and astq.is_self_attr(c.func.value, attr=attr) and len(c.args) == 1 and isinstance(c.args[0], ast.Name) and c.args[0].id == p]
+        good = None
+        if app:
+            gk = CFG(ak)
+            node = gk.node_of(app[0])
+            guards = gk.guards_of(node)
+            # the only admissible guard: "not already in the list"
+            good = all(isinstance(t, ast.Compare) and len(t.ops) == 1 and isinstance(t.ops[0], (ast.NotIn, ast.In))
+                       and isinstance(t.ops[0], ast.NotIn) == br and astq.canon(t.left) == p
+                       and astq.is_self_attr(t.comparators[0], attr=attr) for t, br in guards)
+        ctx.check(good if app else False, "R5", "BaseResults._append_key:" + attr, "appends a new %s to self.%s" % (p, attr),
+                  "does not append %s to self.%s unless it is already there" % (p, attr), ctx.loc(repo.module(BASE), ak))
+    # master file merges with an existing one
+    hb = repo.cls(BASE + ":HDDBaseResults")
+    sv = hb.methods.get("save")
+    if sv is None:
+        ctx.undecided("R5", "HDDBaseResults.save", "method missing", ctx.loc(hb.module, hb.node))
+    else:
+        m = hb.module
+
+        def ext(c, names):
+            sym = repo.resolve_expr(m, c.func)
+            return sym is not None and sym.dotted in names
+
+        gs = CFG(sv)
+        dumps = [c for c in astq.calls(sv) if ext(c, ("joblib.dump", "pickle.dump"))]
+        dump_ids = {gs.node_of(c).id for c in dumps if c.args and isinstance(c.args[0], ast.Name) and c.args[0].id == "self"}
+        ctx.check(gs.must_pass(lambda n: n.id in dump_ids), "R5", "HDDBaseResults.save:dump-all-paths",
+                  "the registry object is dumped on every path", "some path through save() does not dump the registry", ctx.loc(m, sv))
+        loads = [c for c in astq.calls(sv) if ext(c, ("joblib.load", "pickle.load"))]
+        for attr in ("strategy_names", "dataset_names"):
+            c0 = "HDDBaseResults.save:merge:" + attr
+            st = [(a, v, n) for a, v, n in astq.self_attr_stores(sv) if a == attr]
+            if not loads:
+                ctx.violation("R5", c0, "an existing results file is overwritten without being read: names registered by earlier runs are lost", ctx.loc(m, sv))
+                continue
+            if len(st) != 1 or st[0][1] is None:
+                ctx.check(None if st else False, "R5", c0, "", "self.%s is not merged with the names of the existing results file" % attr, ctx.loc(m, sv))
+                continue
+            val = S.resolve_at(sv, st[0][1], st[0][2])
+            has_self = any(astq.is_self_attr(n, attr=attr) for n in ast.walk(val))
+            has_old = any(isinstance(n, ast.Attribute) and n.attr == attr and isinstance(n.value, ast.Call) and ext(n.value, ("joblib.load", "pickle.load"))
+                          for n in ast.walk(val))
+            union = any(isinstance(n, ast.BinOp) and isinstance(n.op, (ast.Add, ast.BitOr)) for n in ast.walk(val)) or \
+                any(isinstance(n, ast.Call) and isinstance(n.func, ast.Attribute) and n.func.attr in ("union", "extend") for n in ast.walk(val))
+            node = gs.node_of(st[0][2])
+            before = bool(gs.may_reach_after(node, lambda n: n.id in dump_ids))
+            ctx.check(has_self and has_old and union and before, "R5", c0, "union of own and previously saved %s, then dumped" % attr,
+                      "self.%s is not the union of the new and the previously saved names before the dump (%s)" % (attr, astq.canon(val)[:80]),
+                      ctx.loc(m, st[0][2]))
+
+
+EMBEDDED_DELETER = """
+import os
+import shutil
+from os import remove as rm
+from pathlib import Path
+def cleanup(path):
+    try:
+        work(path)
+    except Exception:
+        os.remove(path)
+        raise
+def a(p):
+    shutil.rmtree(p)
+def b(p):
+    rm(p)
+def c(p):
+    Path(p).unlink()
+def harmless(p):
+    os.path.isfile(p)
+"""
+
+
+def deletions_in(repo, module):
+    """Calls that delete / move / truncate files; imports anywhere in the module (also function-local) are honoured."""
+    local = {}
+    for n in ast.walk(module.tree):
+        if isinstance(n, ast.Import):
+            for a in n.names:
+                local[a.asname or a.name.split(".")[0]] = a.name if a.asname else a.name.split(".")[0]
+        elif isinstance(n, ast.ImportFrom) and n.level == 0 and n.module:
+            for a in n.names:
+                local[a.asname or a.name] = n.module + "." + a.name
+    out = []
+    for c in ast.walk(module.tree):
+        if not isinstance(c, ast.Call):
+            continue
+        sym = repo.resolve_expr(module, c.func)
+        d = sym.dotted if sym is not None else None
+        if d is None:
+            dn = dotted(c.func)
+            if dn and dn.split(".")[0] in local:
+                d = ".".join([local[dn.split(".")[0]]] + dn.split(".")[1:])
+        if d in DELETERS:
+            out.append((c, d))
+        elif isinstance(c.func, ast.Attribute) and c.func.attr in DELETER_METHODS and (sym is None or sym.kind == "ext"):
+            out.append((c, "." + c.func.attr))
+    return out
+
+
+def rule_no_deletion(ctx, repo):
+    emb = Module("sktime.benchmarking._c19_embedded", "sktime/benchmarking/_c19_embedded.py", EMBEDDED_DELETER)
+    found = sorted(d for _, d in deletions_in(repo, emb))
+    ctx.check(found == [".unlink", "os.remove", "os.remove", "shutil.rmtree"], "R5", "embedded-positive-example:deletion",
+              "the deletion detector finds the four seeded deletions of the embedded example and nothing else",
+              "deletion detector self-check failed: %s" % found, "embedded")
+    if found != [".unlink", "os.remove", "os.remove", "shutil.rmtree"]:
+        # fail closed: the detector is broken, do not report HOLDS for the real modules
+        for rel in sorted(repo.by_relpath):
+            if rel.startswith("sktime/benchmarking/") and "/tests/" not in rel:
+                ctx.undecided("R5", rel + ":no-deletion", "detector self-check failed", rel)
+        return
+    for rel in sorted(repo.by_relpath):
+        if not rel.startswith("sktime/benchmarking/") or "/tests/" in rel:
+            continue
+        mod = repo.by_relpath[rel]
+        dels = deletions_in(repo, mod)
+        if dels:
+            for c, d in dels:
+                ctx.violation("R5", "%s:no-deletion:%s" % (rel, d), "%s(...) removes or replaces files of the result store; completed records "
+                              "must survive failures and re-runs" % d, ctx.loc(mod, c))
+        else:
+            ctx.ok("R5", rel + ":no-deletion", "no call deletes, moves or truncates files", rel)
+
+
+# ------------------------------------------------------------------------------------------------ entry point
+def run(ctx):
+    repo = ctx.repo
+    flow = Flow(repo)
+    ctx.explain("C19: (R1) the loop body of Orchestrator.fit_predict is executed abstractly on every admissible truth assignment of "
+                "the option flags and existence checks (atoms identified by the storage key they probe) and the fold is fitted exactly "
+                "when some requested record is missing or to be overwritten; (R2) every store executes exactly when its own record is "
+                "needed and consults the existence check with the same key; (R3) save/check/load of HDDResults and RAMResults build "
+                "the key with the same function, roles and suffix, the key depends on all four components, stored fields are read "
+                "back under their own name; (R4) fresh clone per fold inside the innermost loop, full product, provenance of "
+                "index / y_true / y_pred / fit data, call arities against both results classes; (R5) every loop path registers "
+                "(strategy, dataset), results.save() after the loop, master file merged, nothing in sktime/benchmarking deletes files.")
+    ctx.assume("sklearn.base.clone returns a new unfitted estimator with the same parameters; cv.split yields (train, test) position arrays")
+    ctx.assume("option flags and the results of the existence checks do not change within one loop iteration; strategy / dataset names "
+               "contain no path separators")
+    ctx.assume("pandas DataFrame.to_csv(header=True) / read_csv(header=0) round-trip column names; os.path.isfile reports file existence")
+    templates = rule_R3(ctx, repo)
+    _, _, reg_pos = registry_roles(repo)
+    roles = analyse_iter(ctx, repo)
+    if roles is None:
+        for r in ("R1", "R2", "R5"):
+            ctx.undecided(r, "Orchestrator._iter", "producer not interpretable, consumers cannot be analysed", ORCH)
+    else:
+        cons = analyse_fit_predict(ctx, repo, flow, roles)
+        consumer_R4(ctx, repo, cons)
+        fit_cons = Consumer(repo, repo.cls(ORCH + ":Orchestrator"), "fit", roles)
+        consumer_R4(ctx, repo, fit_cons)
+        rule_R5_rest(ctx, repo, flow, cons, reg_pos)
+    rule_arity(ctx, repo, roles)
+    rule_no_deletion(ctx, repo)
+    ctx.floor("R1", 2)
+    ctx.floor("R2", 11)
+    ctx.floor("R3", 60)
+    ctx.floor("R4", 30)
+    ctx.floor("R5", 20)
